@@ -64,21 +64,21 @@ type SpecFn struct {
 type SpecParam struct{ Name, Type string }
 
 type TableSpec struct {
-	Pkg     string
-	Name    string
-	Props   []string
-	Rows    [][2]string // key, function description (as printed by the extractor)
-	Exact   bool
-	Where   string
+	Pkg   string
+	Name  string
+	Props []string
+	Rows  [][2]string // key, function description (as printed by the extractor)
+	Exact bool
+	Where string
 }
 
 type Specs struct {
 	Inactive []string
-	Tables  []*TableSpec
-	Funcs   map[string]*FuncSpec
-	SpecFns map[string]*SpecFn
-	Errors  []string
-	Scan    []string // mechanical scan hits for assume/trusted
+	Tables   []*TableSpec
+	Funcs    map[string]*FuncSpec
+	SpecFns  map[string]*SpecFn
+	Errors   []string
+	Scan     []string // mechanical scan hits for assume/trusted
 }
 
 var clauseRe = regexp.MustCompile(`^(requires|ensures|invariant|decreases|callsite|nopanic|assigns|pure|loop|func|spec|order-independent|trusted|table|row|exact|except)\b(\[[A-Z0-9, ]*\])?\s*(.*)$`)
@@ -962,9 +962,9 @@ func (e *specEnv) eval(x *SX) (Val, types.Type, error) {
 		return Val{T: fmt.Sprintf("(ssub %s %s %s)", a.T, lo, hi), S: SStr}, types.Typ[types.String], nil
 	case "field":
 		// result.N
-		if x.Args[0].Op == "ident" && x.Args[0].Name == "result" {
-			if v, ok := e.vars["result."+x.Name]; ok {
-				return v, e.gtOf("result."+x.Name, v), nil
+		if x.Args[0].Op == "ident" && (x.Args[0].Name == "result" || strings.HasPrefix(x.Args[0].Name, "dyn")) {
+			if v, ok := e.vars[x.Args[0].Name+"."+x.Name]; ok {
+				return v, e.gtOf(x.Args[0].Name+"."+x.Name, v), nil
 			}
 		}
 		a, at, err := e.eval(x.Args[0])
@@ -1496,6 +1496,15 @@ func (e *specEnv) evalCall(x *SX) (Val, types.Type, error) {
 			name = strings.SplitN(k, ".", 2)[0] + "." + name
 		}
 		f := c.E.byKey[name]
+		if f == nil {
+			// a function outside the module, by its full name (e.g. "unicode.IsSpace")
+			for g := range c.E.allFuncs {
+				if g.Parent() == nil && g.Origin() == nil && g.String() == x.Args[0].Name {
+					f = g
+					break
+				}
+			}
+		}
 		if f == nil {
 			return Val{}, nil, fmt.Errorf("fn: no function %s", name)
 		}
